@@ -356,9 +356,24 @@ func (p c02) enums(c *core.Ctx, idx int) {
 	reuse := r.Intn(4)
 	leaf := "    leaf x { " + tb.String() + " }\n"
 	td := ""
+	restricted := false
 	if viaTypedef {
 		td = "  typedef et { " + tb.String() + " }\n"
 		leaf = "    leaf x { type et; }\n"
+		if r.Intn(3) == 0 && len(names) > 2 {
+			// YANG 1.1: a derived type may name a subset of the enums / bits, which keep the values of the base type
+			restricted = true
+			var keep [][2]string
+			var sb strings.Builder
+			for i := range names {
+				if i != 0 && r.Intn(2) == 0 || i == len(names)-1 {
+					keep = append(keep, want[i])
+					fmt.Fprintf(&sb, " %s %s;", sub, names[i])
+				}
+			}
+			want = keep
+			leaf = "    leaf x { type et {" + sb.String() + " } }\n"
+		}
 	}
 	body, nExp := wrapReuse(leaf, reuse, "")
 	text := "module m {\n  namespace \"urn:m\";\n  prefix m;\n  revision 2020-01-01;\n" + td + body + "}\n"
@@ -402,6 +417,9 @@ func (p c02) enums(c *core.Ctx, idx int) {
 			cls += "/explicit-zero"
 			break
 		}
+	}
+	if restricted {
+		cls = "/restricted-in-derived-type"
 	}
 	p.compare(c, kw, w, leafDumps(m, "x"), nExp, text, cls)
 }
